@@ -222,6 +222,7 @@ func drawHistory(t *rapid.T, o HistOpts) History {
 			if chance(t, "absent", 30) {
 				opt.AbsentFilter = rapid.IntRange(1, 3).Draw(t, "absentwhich")
 			}
+			opt.Comp = pick(t, "extcomp", []string{"", "", "snappy", "zstd"})
 			if chance(t, "nosecmask", 30) {
 				// some blocks without a filter section next to blocks that have one
 				opt.NoSectionMask = rapid.IntRange(1, 14).Draw(t, "nosecmaskv")
